@@ -96,28 +96,31 @@ Definition timer_state (s : N) : bool :=
 Definition acc_of (e : cev) : option accc :=
   match e with CRecv NotDatagram NoClose (MAcc a) => Some a | _ => None end.
 
-Definition mstep (m : ms) (o : cobs) : ms :=
-  match o with
-  | BEv e =>
-      let m := m <| m_isdef := match ev e with CDeferred => true | _ => false end |> <| m_st0 := m_last m |> in
-      let m := match ev e with CConnErr => m <| m_lost := true |> | _ => m end in
+(* the monitor's reading of an input marker: only the kind of event matters *)
+Definition mev (m : ms) (e : cev) : ms :=
+      let m := m <| m_isdef := match e with CDeferred => true | _ => false end |> <| m_st0 := m_last m |> in
+      let m := match e with CConnErr => m <| m_lost := true |> | _ => m end in
       (* C01: a cancel while the hello phase is waiting withdraws the trust *)
-      let m := match ev e with
+      let m := match e with
                | CAbort => if (N.eqb (m_last m) 8 || N.eqb (m_last m) 11) && negb (m_term m)
                            then m <| m_cancelled := true |> else m
                | _ => m
                end in
       (* C01: approval while the request is pending is a grant *)
-      let m := match ev e with
+      let m := match e with
                | CApprove => if N.eqb (m_st0 m) 11 then m <| m_granted := true |> else m
                | _ => m
                end in
       (* C09: a wrong, missing or undecodable id while one is stored *)
-      match acc_of (ev e) with
+      match acc_of (e) with
       | Some (AccId false _) | Some AccNoId | Some AccMethodsErr =>
           if m_idknown m && N.eqb (m_st0 m) 36 then m <| m_idbad := true |> else m
       | _ => m
-      end
+      end.
+
+Definition mstep (m : ms) (o : cobs) : ms :=
+  match o with
+  | BEv e => mev m (ev e)
   | BPairedQ a | BAutoQ a => if a then m <| m_granted := true |> else m
   | BAllowQ _ => m
   | BReport s _ =>
